@@ -100,6 +100,9 @@ func firstDeliveryStep(e *Engine) int {
 			continue
 		}
 		for _, d := range a.Deliveries {
+			if d.Type == "SHUTDOWN" {
+				continue // not an invocation
+			}
 			if first == 0 || d.Step < first {
 				first = d.Step
 			}
